@@ -2,7 +2,8 @@
      pkg/webhooks/admission/queues/validate/validate_queue.go   (AdmitQueues and everything it calls)
      pkg/webhooks/router/indexer.go                             (GetQueuesByParent)
    as the code is AFTER the fix commit "fix: reject re-parenting a queue under its own
-   descendant and bound the depth of a moved subtree" (docs/notes/C10.md).
+   descendant and bound the depth of a moved subtree" (docs/notes/C10.md); line numbers are
+   those of the file after that commit.
 
    State = the queue set the lister shows (name -> spec).  Names are positives
    (1 = "root", 2 = "default"); a parent is [option positive], None being the
@@ -103,7 +104,7 @@ Definition children_of (Q : queues) (p : positive) : list (positive * qspec) :=
 Definition is_top (p : option positive) : bool :=
   match p with None => true | Some x => bool_decide (x = root) end.
 
-(* ---------- validateQueueDepth (after the fix) ---------- *)
+(* ---------- validateQueueDepth 500-528, queueSubtreeHeight 530-546 (after the fix) ---------- *)
 
 (* [rem] = MaxQueueDepth - depth, the iterations the loop may still take: the
    Go loop increments depth and fails when it exceeds the maximum, so it is
@@ -150,7 +151,7 @@ Definition validate_hier (c : cfg) (Q : queues) (n : positive) (s : qspec) : ver
          end
   end.
 
-(* ---------- hierarchical resources (439-483, 527-681) ---------- *)
+(* ---------- hierarchical resources (439-483, 554-708) ---------- *)
 
 (* findNearestAncestorCapability: None = fuel exhausted, Some None = (0,false) *)
 Fixpoint nearest_cap (fuel : nat) (Q : queues) (parent : option positive) (d : positive) : option (option Z) :=
@@ -197,7 +198,7 @@ Definition sum_check (lim : res) (items : list res) : bool := sum_check_from lim
 Fixpoint first_bad (l : list verdict) : verdict :=
   match l with [] => VAllowed | v :: r => if allowed v then first_bad r else v end.
 
-(* validateChildAgainstAncestor (570-585) *)
+(* validateChildAgainstAncestor (597-612) *)
 Definition child_vs_ancestor (Q : queues) (s : qspec) : verdict :=
   let r := new_resource (qcap s) in
   first_bad (map (fun d =>
@@ -207,14 +208,14 @@ Definition child_vs_ancestor (Q : queues) (s : qspec) : verdict :=
       | Some (Some up) => if bool_decide (up < rget r d) then VCapAncestor else VAllowed
       end) (res_names r)).
 
-(* validateSiblingsSum (589-627); the guarantee and deserved errors are one class *)
+(* validateSiblingsSum (616-654); the guarantee and deserved errors are one class *)
 Definition siblings_sum (Q : queues) (n : positive) (s ps : qspec) (p : positive) : verdict :=
   let sibs := map snd (filter (fun c => fst c <> n) (children_of Q p)) ++ [s] in
   if sum_check (new_resource (qguar ps)) (map (fun x => new_resource (qguar x)) sibs) &&
      sum_check (new_resource (qdes ps)) (map (fun x => new_resource (qdes x)) sibs)
   then VAllowed else VSiblingSum.
 
-(* validateChildrenConstraints (630-681) *)
+(* validateChildrenConstraints (657-708) *)
 Definition children_constraints (Q : queues) (s : qspec) (kids : list (positive * qspec)) : verdict :=
   let r := new_resource (qcap s) in
   match first_bad (map (fun d =>
@@ -229,7 +230,7 @@ Definition children_constraints (Q : queues) (s : qspec) (kids : list (positive 
   | v => v
   end.
 
-(* validateHierarchicalQueueResources (527-567) *)
+(* validateHierarchicalQueueResources (554-594) *)
 Definition validate_resources (Q : queues) (n : positive) (s : qspec) : verdict :=
   let v1 :=
     match qparent s with
